@@ -12,7 +12,7 @@
     ARBITRARY: frames with any tag may arrive at any time (replies to requests
     never completely sent, duplicated or forged replies). *)
 From Coq Require Import NArith Arith List Bool String.
-From P9V Require Import gen.ConstGen gen.ClientGen Client.Pool Client.PoolProofs Client.Fids Client.Mux Client.MuxProofs Client.SourceShape Client.ClientModel Client.ClientProofs.
+From P9V Require Import gen.ConstGen gen.ClientGen Client.Pool Client.PoolProofs Client.Fids Client.Mux Client.MuxProofs Client.MuxToken Client.SourceShape Client.ClientModel Client.ClientProofs.
 Import ListNotations.
 Open Scope nat_scope.
 
@@ -115,6 +115,28 @@ Theorem C10_source_bodies :
   src_Client_waitAndRecv = spec_src_Client_waitAndRecv /\
   filter (mentions "tagPool") spec_src_Client_sendRecv = ["t, ok := c.tagPool.Get()"; "defer c.tagPool.Put(t)"].
 Proof. repeat split. Qed.
+
+(** ---- the hand-over of the receive token (waitAndRecv), read from the statement structure of the source ----
+    go2coq enumerates the paths through the `case c.recvr <- true:` branch (release / handleOne / return / polls of
+    done) and refuses anything else; every path releases the token exactly once; [waitandrecv_rechecks_done]: every
+    path looks at done again after taking the token and before entering handleOne.  The interleaving model with this
+    flag as a parameter ([MuxToken.step_t]) is Mux.step exactly when the flag is true, so all theorems below are
+    about the code as read ... *)
+Theorem C10_token_handover :
+  waitandrecv_rechecks_done = true /\
+  forall wd keep chk mk m a, step_t waitandrecv_rechecks_done wd keep chk mk m a = step wd keep chk mk m a.
+Proof. split; [reflexivity|]. intros. apply step_t_recheck. Qed.
+Print Assumptions C10_token_handover.
+
+(** ... and without the re-check (seeded change C10-m3) a call whose reply was delivered before it reached the
+    select, with the token free, can take the token and then sits in recv with its reply in hand and nothing
+    outstanding: it never returns.  With the re-check the same state only allows it to return its reply. *)
+Theorem C10_token_recheck_needed :
+  (exists m, run_t false true true true true (init 2) (trace_late ++ [AWaitToken 0]) = Some m /\ stuck_in_recv m 0) /\
+  (exists m, run true true true true (init 2) trace_late = Some m /\
+             step true true true true m (AWaitToken 0) = None /\
+             exists m', step true true true true m (AWaitDone 0) = Some m' /\ get (thr m') 0 = TDone 1 0 (ROk 1 0 0)).
+Proof. exact token_recheck_needed. Qed.
 
 (** what the source does; reverting dca25c9 / 79e8d00 (or registering after send) makes these obligations fail *)
 Lemma C10_source_shape :
